@@ -735,6 +735,20 @@ func (e *Engine) trCall(env *SpecEnv, n SCall) Val {
 	case "tokAt":
 		e.sc.declareFun("tokAt", []string{"Int", "Int"}, "String")
 		return Val{T: "(tokAt " + arg(0).T + " " + arg(1).T + ")", S: "String", GoT: tString}
+	case "recCount":
+		// recCount(reader): number of header blocks a textproto.Reader reads from reader
+		e.sc.declareFun("recCount", []string{"Int"}, "Int")
+		return intVal("(recCount " + arg(0).T + ")")
+	case "recAt":
+		e.sc.declareFun("recAt", []string{"Int", "Int"}, "Int")
+		t, err := e.w.resolveType(env.pkg, env.pos, "textproto.MIMEHeader")
+		if err != nil {
+			e.specFail(env, "recAt: "+err.Error())
+		}
+		return Val{T: "(recAt " + arg(0).T + " " + arg(1).T + ")", S: "Int", GoT: t}
+	case "recsRead":
+		// recsRead(rd): number of header blocks the textproto.Reader rd has consumed
+		return intVal(sel(e.heapIn(env.st, "HF_textproto.Reader_$pos", "(Array Int Int)"), arg(0).T))
 	case "scanned":
 		// scanned(scanner): number of tokens the scanner has yielded so far
 		return intVal(sel(e.heapIn(env.st, "HF_bufio.Scanner_$pos", "(Array Int Int)"), arg(0).T))
